@@ -6,6 +6,7 @@ CONSTANTS
   FIX_REPOINT = TRUE
   OPS = FALSE
   MASK_ADD = TRUE
+  MAXQ = 0
   ALIAS_OPS = FALSE
 INVARIANT Emit
 CHECK_DEADLOCK FALSE
